@@ -24,7 +24,7 @@ def mkcase(cid, base, evs):
 
 
 def gen_payload(rng, i, maxlen=6):
-    n = rng.choice([1, 1, 2, 3, maxlen])
+    n = rng.choice([0, 1, 1, 2, 3, maxlen])   # 0: an empty data frame still occupies its sequence number
     return bytes([(i * 37 + j * 11 + rng.randrange(256)) % 256 for j in range(n)])
 
 
@@ -52,7 +52,11 @@ def gen_cases(ctx):
     cid = 0
     # exhaustive: all arrival orders of n frames x read pattern x closing position
     for n in range(1, nmax + 1):
-        payloads = [bytes([16 * (i + 1) + j for j in range(1 + i % 3)]) for i in range(n)]
+      for fam in (0, 1):
+        # family 1: every second frame carries no bytes (it must still be numbered, parked and released)
+        payloads = [bytes([16 * (i + 1) + j for j in range((1 + i % 3) if (fam == 0 or i % 2 == 0) else 0)]) for i in range(n)]
+        if fam == 1 and n > (4 if ctx.quick() else 6):
+            continue
         for order in itertools.permutations(range(n)):
             for reads in ('none', 'one', 'big'):
                 for closing in (None, n - 1) if n > 1 else (None,):
